@@ -279,6 +279,10 @@ pub struct Cfg {
     pub threads: usize,
     pub defaults: bool,
     pub futures: bool,
+    /// how the collector is handed to the Dispatch: 0 as itself, 1 `Arc<K>`, 2 `Box<K>`,
+    /// 3 `Arc<dyn Collect + Send + Sync>` (the forwarding impls are part of the handle path)
+    #[serde(default)]
+    pub wrap: u8,
 }
 
 #[derive(Clone, Debug, Serialize, Deserialize, Default)]
@@ -298,8 +302,20 @@ struct Out {
 
 fn run_history(cfg: &Cfg, history: &[String]) -> Out {
     log_clear();
-    let own = Dispatch::new(K { k: 0, next: AtomicU64::new(1), metas: Mutex::new(BTreeMap::new()) });
-    let other = Dispatch::new(K { k: 1, next: AtomicU64::new(1), metas: Mutex::new(BTreeMap::new()) });
+    let mk = |k: u8| K { k, next: AtomicU64::new(1), metas: Mutex::new(BTreeMap::new()) };
+    let wrapd = |k: u8| -> Dispatch {
+        match cfg.wrap {
+            1 => Dispatch::new(std::sync::Arc::new(mk(k))),
+            2 => Dispatch::new(Box::new(mk(k))),
+            3 => {
+                let a: std::sync::Arc<dyn tracing_core::Collect + Send + Sync> = std::sync::Arc::new(mk(k));
+                Dispatch::new(a)
+            }
+            _ => Dispatch::new(mk(k)),
+        }
+    };
+    let own = wrapd(0);
+    let other = wrapd(1);
     let shared = std::sync::Arc::new(Mutex::new(Shared { handles: vec![None; cfg.max_handles + 2], entered_handles: (0..cfg.max_handles + 2).map(|_| None).collect(), futs: vec![None, None] }));
     let mut workers: Vec<Worker> = (0..cfg.threads).map(|t| spawn_worker(t as i32)).collect();
     // thread defaults: 0 own, 1 other, 2 none
@@ -955,11 +971,15 @@ pub fn run(args: &Args) -> i32 {
     let depth = std::env::var("VERIF_DEPTH").ok().and_then(|s| s.parse().ok()).unwrap_or(args.tier.pick(6, 7));
     let cfgs = vec![
         // one thread, handles/guards/futures
-        Cfg { depth, max_handles: 3, threads: 1, defaults: false, futures: true },
+        Cfg { depth, max_handles: 3, threads: 1, defaults: false, futures: true, wrap: 0 },
         // two threads (handles used and dropped on either thread), no futures
-        Cfg { depth: depth.saturating_sub(1), max_handles: 2, threads: 2, defaults: false, futures: false },
+        Cfg { depth: depth.saturating_sub(1), max_handles: 2, threads: 2, defaults: false, futures: false, wrap: 0 },
         // thread default switched between own / another collector / none
-        Cfg { depth: depth.saturating_sub(1), max_handles: 2, threads: 1, defaults: true, futures: true },
+        Cfg { depth: depth.saturating_sub(1), max_handles: 2, threads: 1, defaults: true, futures: true, wrap: 0 },
+        // the collector behind each of the forwarding wrappers
+        Cfg { depth: depth.saturating_sub(2), max_handles: 2, threads: 1, defaults: false, futures: true, wrap: 1 },
+        Cfg { depth: depth.saturating_sub(2), max_handles: 2, threads: 1, defaults: false, futures: true, wrap: 2 },
+        Cfg { depth: depth.saturating_sub(2), max_handles: 2, threads: 1, defaults: false, futures: true, wrap: 3 },
     ];
     // split each configuration by its first operation
     let mut jobs = vec![];
